@@ -31,6 +31,10 @@ type C07Case struct {
 	Encoded     string     `json:"encoded"`
 	GenuineName string     `json:"genuineName"`
 	IdPWide     bool       `json:"idpWide"` // the IdP certificate uses the wide window instead of Window
+	// StaleLeaf: the TLS key store's parsed Leaf is a currently VALID certificate of the same key (left over from a
+	// rotation) while Certificate[0] — what is published and what recipients are matched against — is as SPCert /
+	// Window say. Certificate[0] is the SP's certificate.
+	StaleLeaf bool `json:"staleLeaf,omitempty"`
 }
 
 // garbageStore returns fixed certificate bytes with a real key.
@@ -57,7 +61,14 @@ func (c *C07Case) buildSP() *saml2.SAMLServiceProvider {
 	case c.StoreKind == "custom":
 		sp.SPKeyStore = &fixedStore{key: k.RSA, cert: der}
 	default:
-		sp.SPKeyStore = dsig.TLSCertKeyStore{Certificate: [][]byte{der}, PrivateKey: k.Signer}
+		st := dsig.TLSCertKeyStore{Certificate: [][]byte{der}, PrivateKey: k.Signer}
+		if c.StaleLeaf {
+			st.Leaf = k.Cert["wide"]
+			if c.Window == "wide" || c.Window == "long" {
+				st.Leaf = k.Cert["long"]
+			}
+		}
+		sp.SPKeyStore = st
 	}
 	return sp
 }
@@ -74,6 +85,7 @@ func genC07(t *rapid.T) C07Case {
 	c.RespSig = rapid.SampledFrom([]string{"none", "none", "trusted", "attacker"}).Draw(t, "respSig")
 	c.Recip = rapid.SampledFrom([]string{"absent", "absent", "sp", "other", "undecodable", "sp-otherwindow"}).Draw(t, "recip")
 	c.IdPWide = rapid.Bool().Draw(t, "idpWide")
+	c.StaleLeaf = c.StoreKind == "tls" && rapid.IntRange(0, 3).Draw(t, "staleLeaf") == 0
 	e := h.GenEncSpec(h.CertRef{Key: "E1", Window: c.Window}).Draw(t, "enc")
 	c.Enc = *e
 	if err := c.build(); err != nil {
@@ -267,7 +279,7 @@ func checkC07(c C07Case) h.Outcome {
 func judgeC07(c C07Case, newSP func() *saml2.SAMLServiceProvider) h.Outcome {
 	o := h.Outcome{NonTrivial: true}
 	o.Classes = []string{"plain:" + c.Plain, "place:" + c.Place, "respSig:" + c.RespSig, "recip:" + c.Recip, "spCert:" + c.SPCert, "store:" + c.StoreKind,
-		fmt.Sprintf("validate:%v", c.SP.ValidateEncCert), "clock:" + c.ClockPos, "window:" + c.Window, "alg:" + shortAlg(c.Enc.DataAlg), "transport:" + shortAlg(c.Enc.Transport)}
+		fmt.Sprintf("validate:%v", c.SP.ValidateEncCert), fmt.Sprintf("staleLeaf:%v", c.StaleLeaf), "clock:" + c.ClockPos, "window:" + c.Window, "alg:" + shortAlg(c.Enc.DataAlg), "transport:" + shortAlg(c.Enc.Transport)}
 	inside := c.clockInside()
 	idpOK := inside
 	if c.IdPWide {
@@ -413,6 +425,7 @@ func TestC07_Grid(t *testing.T) {
 							c := C07Case{SP: h.BaseSP(), Window: w, ClockPos: pos, SPCert: spc, StoreKind: store, Plain: "signed", Place: "direct", RespSig: "none", Recip: recip,
 								Enc: h.EncSpec{DataAlg: alg, Transport: h.Transports[i%3], Digest: "-", To: h.CertRef{Key: "E1", Window: w}, Key: make([]byte, h.KeyLen(alg)), IV: make([]byte, iv)}}
 							c.SP.ValidateEncCert = validate
+							c.StaleLeaf = store == "tls" && i%2 == 0
 							c.IdPWide = w == "narrow"
 							if err := c.build(); err != nil {
 								t.Fatalf("harness: %v", err)
